@@ -2,17 +2,11 @@ import PlzVerif.Base.Proto
 import PlzVerif.Model.AspFacts
 import PlzVerif.Model.AspInterp
 import PlzVerif.Model.PyInterp
-import PlzVerif.Generated.C16
+import PlzVerif.Model.AspGenerated
 open PlzVerif PlzVerif.Asp PlzVerif.Proto
 
-def raw : RawFacts :=
-  { precTable := Generated.C16.precTable, precDefault := Generated.C16.precDefault, lazyOps := Generated.C16.lazyOps,
-    operators := Generated.C16.operators, intOps := Generated.C16.intOps,
-    listAddAppendsToReceiver := Generated.C16.listAddAppendsToReceiver, freezeWraps := Generated.C16.freezeWraps,
-    sortedArg := Generated.C16.sortedArg, reversedArg := Generated.C16.reversedArg,
-    constantFoldsLists := Generated.C16.constantFoldsLists, listSlice := Generated.C16.listSlice }
 
-def F : Facts := factsOf raw
+def F : Facts := genF
 
 def hex2 (n : Nat) : String := String.ofList [hexDigit (n / 16), hexDigit (n % 16)]
 
